@@ -165,7 +165,17 @@ pub struct ScriptStream {
     done: bool,
     projection: Option<Vec<usize>>,
     filters: Vec<Arc<dyn PhysicalExpr>>,
+    endless: Option<Vec<crate::data::Row>>,
+    last_step: u64,
+    in_step: u64,
 }
+
+/// An always-ready input may be pulled at most this often inside one task poll before the
+/// simulator declares that the runtime is being starved (tokio's cooperative budget is 128).
+pub const MAX_BATCHES_PER_POLL: u64 = 2_000;
+/// Total cap of an "endless" input: a safety net so that a task that is never cancelled cannot
+/// hang the harness.
+pub const ENDLESS_TOTAL_CAP: u64 = 150_000;
 
 impl ScriptStream {
     pub fn new(
@@ -176,7 +186,7 @@ impl ScriptStream {
         projection: Option<Vec<usize>>,
         filters: Vec<Arc<dyn PhysicalExpr>>,
     ) -> Self {
-        ScriptStream { schema, script: script.into_iter(), part, stats, sleeping: None, stalled: false, done: false, projection, filters }
+        ScriptStream { schema, script: script.into_iter(), part, stats, sleeping: None, stalled: false, done: false, projection, filters, endless: None, last_step: 0, in_step: 0 }
     }
 }
 
@@ -203,7 +213,51 @@ impl Stream for ScriptStream {
                     Poll::Ready(()) => self.sleeping = None,
                 }
             }
+            if let Some(rows) = self.endless.clone() {
+                let now = sim::steps();
+                if now != self.last_step {
+                    self.last_step = now;
+                    self.in_step = 0;
+                }
+                self.in_step += 1;
+                sim::probe_max("max.endless_batches_in_one_poll", self.in_step);
+                let total = self.stats.batches.fetch_add(1, Ordering::Relaxed) + 1;
+                if self.in_step > MAX_BATCHES_PER_POLL {
+                    sim::request_abort(
+                        "runtime-starved",
+                        format!("a task pulled {} batches from an always-ready input inside one poll without yielding to the runtime (partition {})", self.in_step, self.part),
+                    );
+                    self.done = true;
+                    return Poll::Ready(None);
+                }
+                if total > ENDLESS_TOTAL_CAP {
+                    sim::request_abort(
+                        "not-cancelled",
+                        format!("an endless input was still being pulled after {total} batches: the query was dropped but its work goes on"),
+                    );
+                    self.done = true;
+                    return Poll::Ready(None);
+                }
+                let mut b = rows_to_batch(&rows);
+                if let Some(p) = &self.projection {
+                    b = if p.is_empty() {
+                        RecordBatch::try_new_with_options(
+                            Arc::clone(&self.schema),
+                            vec![],
+                            &arrow::record_batch::RecordBatchOptions::new().with_row_count(Some(rows.len())),
+                        )?
+                    } else {
+                        b.project(p)?
+                    };
+                }
+                return Poll::Ready(Some(Ok(b)));
+            }
             match self.script.next() {
+                Some(Step::Endless(rows)) => {
+                    sim::probe("probe.endless_input_started");
+                    self.endless = Some(rows);
+                    continue;
+                }
                 None => {
                     self.done = true;
                     self.stats.finished.fetch_add(1, Ordering::Relaxed);
